@@ -48,10 +48,15 @@ IntoVals == UNION {TakeN(AllVals(t), 8) \cup TakeN(UnkVals(t), 2) \cup {WithMk(v
 \* objects with and without the attribute of a nilable struct field, longer and shorter lists, decoded one after the other into the same kinds of target
 OFull == MapV(TObj([a |-> TNum, b |-> TStr]), [a |-> NumV(4), b |-> StrV(<<"a">>)])
 OPart == MapV(TObj([a |-> TNum]), [a |-> NumV(8)])
+\* objects holding an attribute that no field of the target struct accepts (next to fields the object leaves out)
+OExtra == {MapV(TObj([a |-> TNum, c |-> TStr]), [a |-> NumV(4), c |-> StrV(<<"a">>)]), MapV(TObj([a |-> TNum, b |-> TStr, c |-> TBool]), [a |-> NumV(4), b |-> StrV(<<"a">>), c |-> BoolV(TRUE)]),
+           MapV(TObj([b |-> TStr]), [b |-> StrV(<<"a">>)]), MapV(TObj([a |-> TStr, b |-> TStr]), [a |-> StrV(<<"a">>), b |-> StrV(<<"b">>)]), MapV(TObj([c |-> TBool]), [c |-> BoolV(TRUE)])}
+OExtraVals == OExtra \cup {SeqV(TList(o.ty), <<o>>) : o \in OExtra} \cup {MapV(TMap(o.ty), [a |-> o]) : o \in TakeN(OExtra, 2)}
 ReuseSeq == <<OFull, OPart, SeqV(TList(OFull.ty), <<OFull, OFull>>), SeqV(TList(OPart.ty), <<OPart>>), SeqV(TList(TNum), <<NumV(4), NumV(8), NumV(0)>>), SeqV(TList(TNum), <<NumV(8)>>),
               SeqV(TSet(TStr), <<StrV(<<"a">>), StrV(<<"b">>)>>), SeqV(TSet(TStr), <<StrV(<<"a", "b">>)>>), MapV(TMap(TStr), [a |-> StrV(<<"a">>), b |-> StrV(<<"b">>)]), MapV(TMap(TStr), [b |-> Null(TStr)]),
               SeqV(TList(TList(TNum)), <<SeqV(TList(TNum), <<NumV(4), NumV(8)>>)>>), SeqV(TList(TList(TNum)), <<SeqV(TList(TNum), <<NumV(0)>>)>>)>>
 IntoLines == {[k |-> "ginto", vals |-> SetToSeq(IntoVals), gts |-> SetToSeq(Targets)],
+              [k |-> "ginto", vals |-> SetToSeq(OExtraVals), gts |-> <<GStruct, GRec1, GRec2, GSlice(GStruct), GSlice(GRec2), GPtr(GStruct), GMap(GStruct)>>],
               [k |-> "ginto", vals |-> ReuseSeq \o ReuseSeq, gts |-> <<GStruct, GSlice(GStruct), GSlice(GPrim("int")), GSlice(GPrim("string")), GMap(GPtr(GPrim("string"))), GSlice(GSlice(GPrim("int"))), GMap(GPrim("string"))>>]}
 ASSUME LET sq == SetToSeq(NumLines \cup RtLines) \o SetToSeq(IntoLines) IN ndJsonSerialize(IOEnv.VOUT, sq) /\ PrintT(<<"GEN", Len(sq)>>)
 VARIABLE x
